@@ -96,10 +96,11 @@ extern "C" {
 char *bzk_inspect_json(const uint8_t *data, size_t n, int lens, int freq, uint8_t **out, size_t *outlen) {
   Options opt;
   opt.want_output = out != nullptr;
-  opt.want_freq = freq != 0;
+  opt.want_freq = (freq & 1) != 0;
+  opt.lenient_crc = (freq & 2) != 0;
   Result R = inspect(data, n, opt);
   std::ostringstream o;
-  dump(R, lens != 0, freq != 0, o);
+  dump(R, lens != 0, (freq & 1) != 0, o);
   std::string s = o.str();
   char *js = (char *)malloc(s.size() + 1);
   memcpy(js, s.c_str(), s.size() + 1);
